@@ -2,7 +2,7 @@
 (* C10, code -> specification: one line per enumeration with its table and the decoder
    outcome for EVERY value of its code space (alone and inside its list container), or -
    for wide (3/4-byte) and string-coded spaces - one line per probed code. *)
-EXTENDS CodePoint, Json, IOUtils, TLC, TLCExt
+EXTENDS CodePoint, CodeTable, Json, IOUtils, TLC, TLCExt
 
 T == ndJsonDeserialize(IOEnv.TRACE_FILE)
 VARIABLE l
@@ -39,8 +39,19 @@ CheckProbe(e) ==
                      IF e.listoutcome = "redirected" THEN "list-item-redirected" ELSE
                      IF e.listoutcome = "reencoded" THEN "list-reencoding-differs" ELSE "list-undocumented-error", l, 0>>)
 
+\* the enumerations defined in the repository against the numbers the protocol documents assign (CodeTable)
+CheckRegistry(e) ==
+  \A m \in 1..Len(e.table) :
+     Report(~Listed(e.enum, e.table[m].name) \/ Assigned(e.enum, e.table[m].name) = e.table[m].code,
+            <<"BAD", "code-point-differs-from-the-protocol-document", l, m>>)
+
+CheckStrRegistry(e) ==
+  \A m \in 1..Len(e.table) :
+     Report(~StrListed(e.enum, e.table[m].name) \/ StrAssigned(e.enum, e.table[m].name) = e.table[m].text,
+            <<"BAD", "name-on-the-wire-differs-from-the-protocol-document", l, m>>)
+
 Init == l = 1
-Next == l <= Len(T) /\ (IF T[l].ev = "space" THEN CheckSpace(T[l]) ELSE IF T[l].ev = "table" THEN Report(Injective(T[l].table, Allow), <<"BAD", "two-names-share-a-code", l, 0>>) ELSE CheckProbe(T[l])) /\ l' = l + 1
+Next == l <= Len(T) /\ (IF T[l].ev = "space" THEN CheckSpace(T[l]) ELSE IF T[l].ev = "registry" THEN CheckRegistry(T[l]) ELSE IF T[l].ev = "strregistry" THEN CheckStrRegistry(T[l]) ELSE IF T[l].ev = "table" THEN Report(Injective(T[l].table, Allow), <<"BAD", "two-names-share-a-code", l, 0>>) ELSE CheckProbe(T[l])) /\ l' = l + 1
 Spec == Init /\ [][Next]_l
 AllConsumed == TLCGet("stats").diameter = Len(T) + 1
 =============================================================================
